@@ -142,6 +142,14 @@ def state_digest(lib):
     return h.hexdigest()[:16]
 
 
+def _obj_digest(o):
+    """state of a caller-owned object (attributes, recursively through pickle)"""
+    try:
+        return hashlib.sha256(pickle.dumps(o, protocol=4)).hexdigest()[:16]
+    except Exception:
+        return repr(sorted(vars(o).items())) if hasattr(o, "__dict__") else repr(o)
+
+
 class InjectedFailure(Exception):
     pass
 
@@ -201,13 +209,21 @@ class World:
         where = "step %d %s" % (i, json.dumps(op))
         if kind == "CALL":
             e = op["e"]
+            kw = entries.kwargs(lib, pool[e])
+            sc = kw.get("scorer")
+            judge_arg = sc is not None and type(sc).__name__ != "RandomScorer"
+            before = _obj_digest(sc) if judge_arg else None
             try:
-                r = lib["ctparse"].ctparse(pool[e]["text"], **entries.kwargs(lib, pool[e]))
+                r = lib["ctparse"].ctparse(pool[e]["text"], **kw)
                 got = {"call": core.cand_key(r) if hasattr(r, "resolution") else ["?", repr(r)]}
             except Exception as ex:
                 got = {"exc": "%s: %s" % (type(ex).__name__, ex)}
             self.obs.append([i, "CALL", e, core.short(got)])
             self.check_call(e, got, where)
+            if judge_arg and _obj_digest(sc) != before:
+                self.viol("C12.arguments", "scorer-argument-modified:" + type(sc).__name__,
+                          "%s: the scorer object passed by the caller was modified by the call"
+                          % where)
         elif kind == "OPEN":
             e = op["e"]
             g = lib["ctparse"].ctparse_gen(pool[e]["text"], **entries.kwargs(lib, pool[e]))
